@@ -85,6 +85,9 @@ pub struct Batch {
     pub thorough: u64,
     /// Run on this batch is expensive: scale shrink budget down.
     pub heavy: bool,
+    /// If non-zero: the scenario's first choice is a grid cell in 0..grid, and run i of the
+    /// batch is forced to cell i % grid, so that `runs >= grid` enumerates the grid completely.
+    pub grid: u64,
 }
 
 pub struct Extra {
@@ -271,7 +274,8 @@ fn run_batch(prop: &str, b: &Batch, n: u64, master: u64, t: Tier) -> Agg {
                             break;
                         }
                         let seed = run_seed(master, prop, b.name, i);
-                        let o = exec_run(b.f, Tape::generate(seed), false);
+                        let tape = if b.grid > 0 { Tape::generate_forced(seed, vec![i % b.grid]) } else { Tape::generate(seed) };
+                        let o = exec_run(b.f, tape, false);
                         agg.add(i, seed, o);
                         if agg.viol.len() >= 8 {
                             stop.store(true, Ordering::Relaxed);
@@ -474,6 +478,8 @@ pub fn run_property(spec: &Spec, t: Tier, master: u64, write_evidence: bool) -> 
             ("distinct_executions", J::u(agg.distinct.len() as u64)),
             ("nontrivial_distinct", J::u(agg.nontrivial.len() as u64)),
             ("violating_runs", J::u(agg.viol.len() as u64)),
+            ("grid_cells", J::u(b.grid)),
+            ("grid_enumerated_completely", J::Bool(b.grid > 0 && agg.runs >= b.grid && agg.viol.len() < 8)),
         ]));
         // triage violations of this batch
         for (idx, seed, o) in &agg.viol {
